@@ -9,7 +9,7 @@ Translated / extracted from /repo on every run (fail closed):
      pack_/unpack_special_typing_primitive, as a function of (spec.type, spec.origin_type, spec.builder.cls);
      that the flags reach the emitted call is checked textually.
   3. The `spec.copy(...)` of the descent sites that re-enter the registry for a part of the type
-     (NewType -> supertype, Optional -> the non-None argument, collection -> element), pack and unpack side, as
+     (NewType -> supertype, Optional -> the non-None argument, collection -> element, Union -> member), pack and unpack side, as
      transformers of the spec namespace {type, origin_type, annotated_type, metadata}: `type=` sets type and
      origin_type (ValueSpec.__setattr__), `field_ctx=spec.field_ctx.copy(metadata={})` empties the metadata,
      `annotated_type=None` (not present today) would clear the alias; expression / could_be_none / owner do not
@@ -218,6 +218,21 @@ def gen() -> str:
         if len(top) != 1 or not top[0].orelse:
             raise Unsupported(f"{side}_collection.inner_expr shape")
         out += _descend(f"descend_{side}_element", _copy_call(top[0].orelse, f"{side} element"), reg, top[0].orelse)
+        # a member of a Union: the loop over the union's arguments in pack_union / UnionUnpackerBuilder._add_body
+        if side == "pack":
+            ufn = find_function(mod, "pack_union")
+            loops = [n for n in ufn.body if isinstance(n, ast.For) and ast.unparse(n.iter) == "args"]
+        else:
+            ucls = [n for n in mod.body if isinstance(n, ast.ClassDef) and n.name == "UnionUnpackerBuilder"]
+            if len(ucls) != 1:
+                raise Unsupported("UnionUnpackerBuilder not found")
+            ufn = next((n for n in ucls[0].body if isinstance(n, ast.FunctionDef) and n.name == "_add_body"), None)
+            if ufn is None:
+                raise Unsupported("UnionUnpackerBuilder._add_body not found")
+            loops = [n for n in ufn.body if isinstance(n, ast.For) and ast.unparse(n.iter) == "self.union_args"]
+        if len(loops) != 1:
+            raise Unsupported(f"{side} union: {len(loops)} loops over the union arguments")
+        out += _descend(f"descend_{side}_member", _copy_call(loops[0].body, f"{side} union member"), reg, loops[0].body)
     out += "\n"
 
     # 4. fresh field specs
